@@ -108,26 +108,41 @@ structure DF (s s' : Streams) : Prop where
   desc : ∀ k x', s'.store.get? k = some x' → ∃ x, s.store.get? k = some x ∧ SameD x x'
   keys : SameKeys s s'
   cnt : KeysOK s → ∀ sv, cntP (sendCounted sv) s' = cntP (sendCounted sv) s
+  next : NextOK s.counts.isServer s.actions.send.nextStreamId s'.actions.send.nextStreamId
+
+theorem NextOK.trans {sv : Bool} {a b c : Option Nat} (h1 : NextOK sv a b) (h2 : NextOK sv b c) : NextOK sv a c := by
+  intro z hz
+  obtain ⟨y, hy, hyz, hp2⟩ := h2 z hz
+  obtain ⟨x, hx, hxy, hp1⟩ := h1 y hy
+  refine ⟨x, hx, Nat.le_trans hxy hyz, ?_⟩
+  rcases hp2 with e2 | e2
+  · rcases hp1 with e1 | e1
+    · exact .inl (e2.trans e1)
+    · right; rw [e2]; exact e1
+  · exact .inr e2
 
 theorem DF.refl (s : Streams) : DF s s :=
-  ⟨CD.refl _, rfl, fun _ h => h, fun _ h => h, fun _ x' h => ⟨x', h, SameD.refl _⟩, SameKeys.refl _, fun _ _ => rfl⟩
+  ⟨CD.refl _, rfl, fun _ h => h, fun _ h => h, fun _ x' h => ⟨x', h, SameD.refl _⟩, SameKeys.refl _, fun _ _ => rfl, NextOK.refl _ _⟩
 
 theorem DF.trans {a b c : Streams} (h1 : DF a b) (h2 : DF b c) : DF a c := by
   refine ⟨h1.counts.trans h2.counts, h2.nextKey.trans h1.nextKey, fun p hp => h1.ids p (h2.ids p hp),
-    fun k hk => h1.openQ k (h2.openQ k hk), ?_, h1.keys.trans h2.keys, fun h sv => (h2.cnt (h1.keys.keysOK h) sv).trans (h1.cnt h sv)⟩
+    fun k hk => h1.openQ k (h2.openQ k hk), ?_, h1.keys.trans h2.keys, fun h sv => (h2.cnt (h1.keys.keysOK h) sv).trans (h1.cnt h sv),
+    h1.next.trans (by rw [← h1.counts.isServer]; exact h2.next)⟩
   intro k x'' hx''
   obtain ⟨x', hx', d'⟩ := h2.desc k x'' hx''
   obtain ⟨x, hx, d⟩ := h1.desc k x' hx'
   exact ⟨x, hx, d.trans d'⟩
 
 theorem DF.of_store_eq {s s' : Streams} (hst : s'.store = s.store) (hc : CD s.counts s'.counts)
-    (hq : ∀ k ∈ s'.prio.pendingOpen, k ∈ s.prio.pendingOpen) : DF s s' :=
+    (hq : ∀ k ∈ s'.prio.pendingOpen, k ∈ s.prio.pendingOpen)
+    (hn : NextOK s.counts.isServer s.actions.send.nextStreamId s'.actions.send.nextStreamId) : DF s s' :=
   ⟨hc, by rw [hst], fun p hp => by rw [hst] at hp; exact hp, hq,
    fun k x' hx => ⟨x', by rw [← hst]; exact hx, SameD.refl _⟩, SameKeys.of_store_eq hst,
-   fun _ sv => cntP_of_store_eq _ hst⟩
+   fun _ sv => cntP_of_store_eq _ hst, hn⟩
 
 theorem DF.panic' (s : Streams) (m : String) : DF s (s.panic m) :=
   DF.of_store_eq (panic_store _ _) (by rw [panic_counts]; exact CD.refl _) (by unfold Streams.prio; rw [panic_actions]; exact fun _ h => h)
+    (by rw [panic_actions]; exact NextOK.refl _ _)
 
 theorem DF.setQ (s : Streams) (q : QName) (l : List Nat) (hq : q ≠ .pendingOpen ∨ ∀ k ∈ l, k ∈ s.prio.pendingOpen) : DF s (s.setQ q l) :=
   DF.of_store_eq (setQ_store _ _ _) (by rw [setQ_counts]; exact CD.refl _)
@@ -138,18 +153,19 @@ theorem DF.setQ (s : Streams) (q : QName) (l : List Nat) (hq : q ≠ .pendingOpe
         · exact absurd rfl hq
         · exact hq
       all_goals exact fun _ h => h)
+    (by cases q <;> exact NextOK.refl _ _)
 
 theorem DF.of_frame {s s' : Streams} (h : Frame s s') : DF s s' :=
   DF.of_store_eq h.store (CD.of_cstep h.counts) (by
     have hq : s'.prio.pendingOpen = s.prio.pendingOpen := h.q .pendingOpen
-    intro k hk; rw [hq] at hk; exact hk)
+    intro k hk; rw [hq] at hk; exact hk) h.next
 
 theorem DF.setCounts (s : Streams) (c : Counts) (h : CD s.counts c) : DF s { s with counts := c } :=
-  DF.of_store_eq rfl h (fun _ h => h)
+  DF.of_store_eq rfl h (fun _ h => h) (NextOK.refl _ _)
 
 theorem DF.setStream (s : Streams) (st' : Stream) (h : ∀ x, s.store.get? st'.key = some x → SameD x st') :
     DF s (s.setStream st') := by
-  refine ⟨CD.refl _, rfl, fun _ hp => hp, fun _ hk => hk, ?_, SameKeys.setStream _ _, ?_⟩
+  refine ⟨CD.refl _, rfl, fun _ hp => hp, fun _ hk => hk, ?_, SameKeys.setStream _ _, ?_, NextOK.refl _ _⟩
   · intro k x' hx'
     rw [setStream_get?] at hx'
     cases hk : s.store.get? k with
